@@ -4,6 +4,7 @@
 -/
 import MajoranaVerif.Proofs.Mvp60SlBack
 import MajoranaVerif.Proofs.Mvp60Flush
+import MajoranaVerif.Proofs.Mvp60SlOk
 open GoInt
 
 set_option linter.unusedSimpArgs false
@@ -976,7 +977,7 @@ structure RelG (app : App) (s : State) (a : Arch) : Prop where
   xq : s.executeBus.queue.length ≤ 2
   eqw : s.eus.length = s.wus.length
   pend : s.cuPendings.items.length ≤ 1
-  l1d : s.mmu.l1d.lines = []
+  l1d : MmuOk s.mmu
   mode : s.mode = .normal
   /-- no `ret` is left in the execute bus queue (when there is an execute unit to take it) -/
   retQ : 1 ≤ s.eus.length → ∀ x ∈ s.executeBus.queue, ¬ isRet x
@@ -993,7 +994,7 @@ structure RelB (app : App) (s : State) (a : Arch) : Prop where
   halt : ∃ c, stepArch Proofs.Mvp4.dc app a = .halt .ret c
   back : Back s.ctx s.writeBus.inside s.executeBus.inside a
   wus : ∀ wu ∈ s.wus, wu.co = .none
-  l1d : s.mmu.l1d.lines = []
+  l1d : MmuOk s.mmu
   mode : s.mode = .retB
 
 /-- what the drain before a flush needs to come back to `RelG`: the drain invariant with the architectural registers as
@@ -1013,7 +1014,7 @@ structure FFacts (app : App) (s : State) (a' : Arch) (from_ pc : Word) : Prop wh
   wbl : s.writeBus.bufferLength = 2
   xql : s.executeBus.queueLength = 2
   dlen : s.decodeBus.bufferLength = 2
-  l1d : s.mmu.l1d.lines = []
+  l1d : MmuOk s.mmu
   clean : NoJmp app → s.fu.toCleanPending = false
   sid : s.ctx.sequenceID = 0 ∨ NoCond app
   k1 : s.eus.length ≤ 1 ∨ NoCond app ∨ s.executeBus.bufferLength = 2
@@ -1187,7 +1188,7 @@ structure Ph (app : App) (s : State) (a : Arch) : Prop where
   xq : s.executeBus.queue.length ≤ 2
   eqw : s.eus.length = s.wus.length
   pend : s.cuPendings.items.length ≤ 1
-  l1d : s.mmu.l1d.lines = []
+  l1d : MmuOk s.mmu
   mode : s.mode = .normal
   retQ : 1 ≤ s.eus.length → ∀ x ∈ s.executeBus.queue, isRet x → s.executeBus.queue = [x]
   noRetBuf : ∀ e ∈ s.executeBus.buffer, ¬ isRet e.2
@@ -1288,6 +1289,12 @@ theorem fetch_ph (app : App) (hp : ProgJ app) (s s2 : State) (a : Arch) (h : Ph 
     simp only [pure, Except.pure, Except.ok.injEq] at hr
     subst hr
     obtain ⟨f1, f2, f3⟩ := fetchCore_frame app _ _ _ _ _ _ _ hv
+    have hmok : MmuOk mmu' := by
+      obtain ⟨fu2, mmu2, bus2, hv2, hi2⟩ := fetchCore_ok app s.cycles s.fu s.mmu s.decodeBus h.l1d.2
+      rw [hv] at hv2
+      simp only [Except.ok.injEq, Prod.mk.injEq] at hv2
+      obtain ⟨_, rfl, _⟩ := hv2
+      exact ⟨by rw [f2]; exact h.l1d.1, hi2⟩
     have hfr : FrontJ app { s with fu := fu', mmu := mmu', decodeBus := bus' } n0 := by
       refine ⟨hf.chain, hf.inRange, by (show bus'.bufferLength = 2); rw [f1]; exact hf.dlen, ?_, hf.clo,
         fun hn => ⟨f3, (hf.plain hn).2⟩⟩
@@ -1299,7 +1306,7 @@ theorem fetch_ph (app : App) (hp : ProgJ app) (s s2 : State) (a : Arch) (h : Ph 
       simp only [effD, e2, Bool.false_eq_true, if_false]
       exact e1
     refine ⟨⟨⟨n0, hpc, hfr⟩, h.back, h.eus, h.wus, h.wbuf, h.wqk, h.wql, h.wbl,
-      h.xql, h.xq, h.eqw, h.pend, by (show mmu'.l1d.lines = []); rw [f2]; exact h.l1d, h.mode, h.retQ, h.noRetBuf,
+      h.xql, h.xq, h.eqw, h.pend, hmok, h.mode, h.retQ, h.noRetBuf,
       h.seqs.mono rfl (fun r hmem => Or.inl hmem), h.stale, h.k1.imp id (Or.imp id (fun w => ⟨w.xb, w.br, w.bl⟩))⟩, f3⟩
 
 theorem decode_ph (app : App) (hp : ProgJ app) (s s3 : State) (a : Arch) (h : Ph app s a) (hcl : s.fu.toCleanPending = false)
@@ -1402,7 +1409,7 @@ theorem control_mid (app : App) (s : State) (a : Arch) (h : Ph app s a) : Mid ap
     (∀ wu ∈ (controlCycle s).wus, wu.co = .none) ∧ (controlCycle s).writeBus.queue.length ≤ (controlCycle s).wus.length ∧
     (controlCycle s).writeBus.queueLength = 2 ∧ (controlCycle s).executeBus.queueLength = 2 ∧
     (controlCycle s).executeBus.queue.length ≤ 2 ∧ (controlCycle s).eus.length = (controlCycle s).wus.length ∧
-    (controlCycle s).cuPendings.items.length ≤ 1 ∧ (controlCycle s).mmu.l1d.lines = [] ∧ (controlCycle s).mode = .normal := by
+    (controlCycle s).cuPendings.items.length ≤ 1 ∧ MmuOk (controlCycle s).mmu ∧ (controlCycle s).mode = .normal := by
   obtain ⟨n0, hpc, hf⟩ := h.front
   obtain ⟨pushed, i1, i2, i3, fr, hplen⟩ := controlCycle_spec s h.pend
   obtain ⟨b1, b2, b3, b4⟩ := issued_back i1 h.back
@@ -1481,7 +1488,7 @@ theorem control_mid (app : App) (s : State) (a : Arch) (h : Ph app s a) : Mid ap
 theorem goRetB_sim (app : App) (a0 : Arch) (s s' : State) (a : Arch) (k : Nat) (ev : Event)
     (hk : Proofs.Mvp4.seqIter app k a0 = some a) (hh : ∃ c, stepArch Proofs.Mvp4.dc app a = .halt .ret c)
     (hb : Back s.ctx s.writeBus.inside s.executeBus.inside a) (hw : ∀ wu ∈ s.wus, wu.co = .none)
-    (hl : s.mmu.l1d.lines = []) (h : goRetB s = .ok (s', ev)) : TickPostG app a0 s' ev := by
+    (hl : MmuOk s.mmu) (h : goRetB s = .ok (s', ev)) : TickPostG app a0 s' ev := by
   unfold goRetB at h
   split at h
   · simp only [pure, Except.pure, Except.ok.injEq, Prod.mk.injEq] at h
@@ -1490,7 +1497,7 @@ theorem goRetB_sim (app : App) (a0 : Arch) (s s' : State) (a : Arch) (k : Nat) (
   · rename_i hc
     simp only [Bool.or_eq_true, Bool.not_eq_true', not_or, Bool.not_eq_false] at hc
     unfold finish at h
-    rw [flush_empty s.mmu s.ctx.Memory hl] at h
+    rw [flush_empty s.mmu s.ctx.Memory hl.1] at h
     simp only [bind, Except.bind, pure, Except.pure, Except.ok.injEq, Prod.mk.injEq] at h
     obtain ⟨rfl, rfl⟩ := h
     have hwi := inside_nil_of_isEmpty _ hc.2
@@ -1553,7 +1560,7 @@ theorem cycleM_simG (app : App) (hp : ProgJ app) (a0 : Arch) (hT : ∀ k a, Proo
               have hq6 : s6.writeBus.queue = [] := by
                 have h1 : s5.writeBus.queue.length ≤ s5.wus.length := by rw [keep.wq, keep.wus]; exact c_wqk
                 exact List.length_eq_zero_iff.mp (by omega)
-              have hl1d : s6.mmu.l1d.lines = [] := by rw [wk.mmu, keep.mmu]; exact c_l1d
+              have hl1d : MmuOk s6.mmu := by rw [wk.mmu, keep.mmu]; exact c_l1d
               have hcyc : s6.cycles = s5.cycles := wk.cycles
               split at h
               · -- everything is empty: the run has fallen off the end
@@ -1561,7 +1568,7 @@ theorem cycleM_simG (app : App) (hp : ProgJ app) (a0 : Arch) (hT : ∀ k a, Proo
                 simp only [isEmpty, Bool.and_eq_true, decide_eq_true_eq] at hemp
                 obtain ⟨⟨⟨⟨⟨⟨⟨hcomp, hcu⟩, _⟩, hd⟩, hcb⟩, hxb⟩, hwb⟩, _⟩ := hemp
                 unfold finish at h
-                rw [flush_empty s6.mmu s6.ctx.Memory hl1d] at h
+                rw [flush_empty s6.mmu s6.ctx.Memory hl1d.1] at h
                 simp only [bind, Except.bind, pure, Except.pure, Except.ok.injEq, Prod.mk.injEq] at h
                 obtain ⟨rfl, rfl⟩ := h
                 have hrn : runners s6 = [] := by
@@ -1649,7 +1656,7 @@ theorem cycleM_simG (app : App) (hp : ProgJ app) (a0 : Arch) (hT : ∀ k a, Proo
               unfold goRetA at h
               simp only [eus_idle_any s6 hidle6, Bool.false_eq_true, if_false] at h
               refine goRetB_sim app a0 _ s' a' k' ev hk' hret.halt ?_ (by (show ∀ wu ∈ s6.wus, wu.co = .none); rw [wk.wus]; exact hwus5)
-                (by (show s6.mmu.l1d.lines = []); rw [wk.mmu, hret.keep.mmu]; exact c_l1d) h
+                (by (show MmuOk s6.mmu); rw [wk.mmu, hret.keep.mmu]; exact c_l1d) h
               simp only [inside_connect]; exact b6
           · -- a taken branch has flushed: the write units, then the drain
             simp only [afterEus, Bool.false_eq_true, if_false, if_true, bind, Except.bind] at h
@@ -1691,7 +1698,7 @@ theorem cycleM_simG (app : App) (hp : ProgJ app) (a0 : Arch) (hT : ∀ k a, Proo
     · rename_i s1 h1
       obtain ⟨b1, wk, _⟩ := wusCycle_sim s s1 a hr.wus hr.back h1
       refine goRetB_sim app a0 _ s' a k ev hk hr.halt ?_ (by (show ∀ wu ∈ s1.wus, wu.co = .none); rw [wk.wus]; exact hr.wus)
-        (by (show s1.mmu.l1d.lines = []); rw [wk.mmu]; exact hr.l1d) h
+        (by (show MmuOk s1.mmu); rw [wk.mmu]; exact hr.l1d) h
       simp only [inside_connect]; exact b1
 
   · -- the drain before a flush
